@@ -90,10 +90,10 @@ type proj = {
   mutable id : string; mutable mode : mode; mutable trailing : bool; mutable recursive : bool;
   mutable threads : int; mutable base : string; mutable inputs : str list;
   mutable files : (path * node) list; mutable cmds : (string * (bool * str)) list;
-  mutable sched : int list; mutable pp_src : string; mutable pp_first : bool }
+  mutable sched : int list; mutable pp_src : string; mutable pp_first : bool; mutable permissive : bool }
 
 let new_proj id = { id; mode = Build; trailing = true; recursive = false; threads = 4; base = "x2f";
-  inputs = []; files = []; cmds = []; sched = []; pp_src = ""; pp_first = false }
+  inputs = []; files = []; cmds = []; sched = []; pp_src = ""; pp_first = false; permissive = false }
 
 let mode_of = function 0 -> Build | 1 -> InMemoryBuild | 2 -> Clean | 3 -> Verify | _ -> failwith "mode"
 
@@ -105,7 +105,7 @@ let oracle_of (p : proj) : oracle = fun cmd cwd file ->
   else match List.assoc_opt c p.cmds with
     | Some (true, out) -> Some out
     | Some (false, _) -> None
-    | None -> None
+    | None -> if p.permissive then Some [] else None
 
 let show_task = function
   | TScan d -> "s:" ^ path_str d
@@ -164,6 +164,7 @@ let () =
     | Some p, ["c"; cmd; st; out] -> p.cmds <- (ocaml_string (unhex cmd), (st = "0", unhex out)) :: p.cmds
     | Some p, "s" :: ns -> p.sched <- List.map int_of_string ns
     | Some p, ["p"; src; first] -> p.pp_src <- src; p.pp_first <- first = "1"
+    | Some p, ["o"; v] -> p.permissive <- v = "1"
     | Some p, ["E"] -> print_endline (run_proj p); cur := None
     | _, _ -> failwith ("driver: cannot parse line: " ^ line)
   done with End_of_file -> ())
